@@ -108,6 +108,15 @@ CHECKS = {
 
 NOT_YET = {}
 
+# the configuration life-cycle binding (engine cfglife, ResConfig.tla) runs inside these checks and reports the
+# deviations that concern the property
+CONFIG_PART = {
+ "C03": "worker count, in-channel size and the panic of guarded setters on a running service",
+ "C08": "the connection events go out on (also through a Resource value kept from an earlier life)",
+ "C09": "queue group, subscription subjects and the ownership announced by resets",
+ "C15": "the query event duration",
+}
+
 def main():
     hooks_commits = subprocess.run(["git","-C","/repo","log","--format=%h","--grep=^verif:"],capture_output=True,text=True).stdout.split()
     props = [json.loads(l)["id"] for l in open("/verif/properties.jsonl")]
@@ -115,6 +124,8 @@ def main():
     for pid in props:
         if pid not in CHECKS: continue
         eng, level, tech, text, note, ref = CHECKS[pid]
+        if pid in CONFIG_PART:
+            tech += "; in addition behaviours of ResConfig.tla (the configuration of a Service over its lives: setters, Serve, Shutdown; model-checked by TLC, MCConfig) - tlc -simulate behaviours, the counterexample of the model in which settings are carried over from the first life, and directed two-life runs - are replayed on one real Service value and every run is judged by TLC (TraceConfig.tla), here for " + CONFIG_PART[pid]
         checks.append({
             "property_id": pid,
             "quick_cmd": f"./vcheck {pid} --tier quick",
@@ -145,6 +156,7 @@ def main():
     engs = {}
     for pid,(eng,*_) in CHECKS.items():
         engs.setdefault(eng, []).append(pid)
+    engs["cfglife"] = sorted(CONFIG_PART)
     m["engines"] = [{"name": e, "path": f"harness/internal/{e}", "serves_properties": sorted(ps), "kind_free_text": "Go driver on the real code + TLC on spec/*.tla"} for e,ps in sorted(engs.items())]
     json.dump(m, open("/verif/MANIFEST.json","w"), indent=1)
     print("checks:", len(checks), "not_applicable:", len(na))
